@@ -54,7 +54,7 @@ def load_known_findings():
 # --------------------------------------------------------------------------- extraction
 
 VX_KEYS = ("id", "file", "path", "spec", "ret_name", "keep_fields", "keep_variants", "override_value", "extra_fields", "keep_derives",
-           "rules", "rename", "slice", "keep_vis", "any_expr", "rename_calls", "erase_async", "add_attrs")
+           "rules", "rename", "slice", "keep_vis", "any_expr", "rename_calls", "erase_async", "add_attrs", "with_helpers", "env_methods")
 
 
 def vx_extract(unit, rendering):
